@@ -217,6 +217,16 @@ func genC14(r *Rng, tier string) *Plan {
 			g.P.Add(Op{K: "clock", N: 5 * 86400, Label: reason})
 			flags |= FlagE
 		}
+		if r.Chance(1, 5) {
+			// the regeneration is first attempted by a run that does not get through: one of its writes
+			// fails without touching the file (W1), or the process dies in front of it (W4) or right after
+			// it (W7). None of these outcomes damages a stored key or request, so "the stored key stays the
+			// same key" holds across the failed attempt exactly as across a completed run; outcomes that
+			// destroy the only copy of a key (truncation, torn writes) are C15's.
+			fr := g.Run(flags, "regen", "may-fail", "faulted")
+			fr.Faults = []FaultSpec{{Op: "write", Nth: r.Range(1, 3), Kind: Pick(r, []string{"W1", "W4", "W7"})}}
+			g.P.Meta["faulted-regen"] = "1"
+		}
 		g.Run(flags, "regen")
 	}
 	return g.P
